@@ -4,6 +4,7 @@ One integer decides everything: VERIF_SEED -> run seed (sha256) -> random.Random
 Nothing in here reads a clock or draws from a PRNG on a logging path.
 """
 import hashlib
+import os
 import random
 import struct
 from collections import Counter
@@ -200,6 +201,18 @@ class Machine(object):
         pass
 
 
+def raised_in_sut(ex):
+    """True if the exception travelled through a frame of the menpo package (as opposed to one raised by the
+    machinery itself, which stays a HARNESS-ERROR)."""
+    tb = ex.__traceback__
+    sep = os.sep + "menpo" + os.sep
+    while tb is not None:
+        if sep in tb.tb_frame.f_code.co_filename:
+            return True
+        tb = tb.tb_next
+    return False
+
+
 def execute(machine_cls, cfg, ops, known=(), trace=False):
     """Run one history against real code.  Returns (violation|None, ctx)."""
     ctx = Ctx(known)
@@ -207,6 +220,7 @@ def execute(machine_cls, cfg, ops, known=(), trace=False):
         ctx.trace = []
     m = machine_cls(cfg, ctx)
     viol = None
+    op = None
     try:
         try:
             m.setup()
@@ -214,8 +228,22 @@ def execute(machine_cls, cfg, ops, known=(), trace=False):
                 ctx.opkinds[op["op"]] += 1
                 ctx.steps += 1
                 m.step(op)
+            op = None
             m.finish()
         except Violation as v:
+            viol = v
+        except Exception as ex:
+            # menpo raised where the machine did not provide for it: on the unchanged tree this never happens (it
+            # would be a harness error); on a changed tree it is a verdict, with a replay like any other
+            if not raised_in_sut(ex):
+                raise
+            import traceback
+            last = traceback.extract_tb(ex.__traceback__)[-1]
+            where = op["op"] if op is not None else "setup_or_finish"
+            v = Violation("operation_completes", "menpo_raised_%s_during_%s" % (type(ex).__name__, where),
+                          "%r at %s:%d (%s)" % (ex, os.path.basename(last.filename), last.lineno, last.name))
+            if v.signature in ctx.known:
+                raise
             viol = v
     finally:
         m.teardown()
